@@ -269,6 +269,12 @@ func TestC16(t *testing.T) {
 		if rapid.IntRange(0, 3).Draw(rt, "mode") == 0 {
 			p := dsl.GenProgram(rt, dsl.GenCfg{MaxPackets: 4, Avoid: avoid, Shapes: true, AnyOrder: true, KeywordNames: true})
 			sub := drawSubset(rt)
+			// the root packet is optional for the targets that do not need one (Go, Java, Rust)
+			if !dsl.Has(p.Features(), "len") && rapid.IntRange(0, 4).Draw(rt, "no_root") == 0 {
+				p.RootPacket().Root = false
+				sub = rapid.SliceOfNDistinct(rapid.SampledFrom([]string{"rust", "go", "java"}), 1, 3, rapid.ID[string]).Draw(rt, "rootless_subset")
+				c.Class("compile-program-without-root-packet")
+			}
 			// the order of flags on the command line is free
 			sub = rapid.Permutation(sub).Draw(rt, "flag_order")
 			k := c16Case{Mode: "compile", Text: dsl.PlainText(p), Subset: sub, Strace: pbt.Thorough() && rapid.IntRange(0, 4).Draw(rt, "strace") == 0, Stale: rapid.IntRange(0, 2).Draw(rt, "stale_outputs") == 0}
@@ -321,6 +327,11 @@ func TestC16(t *testing.T) {
 		text = strings.ReplaceAll(text, "\x00", "?")
 		if strings.TrimSpace(text) == "" {
 			text = "packet A {}"
+		}
+		if rapid.IntRange(0, 19).Draw(rt, "blank_text") == 0 {
+			// a text of blanks only is a valid (empty) program: the library returns "" for it
+			text = rapid.SampledFrom([]string{" ", "\n", "\t\n  ", "\r\n", "   \n\n"}).Draw(rt, "blanks")
+			cls = "format-blank-text"
 		}
 		k := c16Case{Mode: "format", Text: text}
 		// the C library keeps state between calls only if it is buggy: call it on other texts in between
